@@ -6,6 +6,7 @@ import (
 	"encoding/hex"
 	"fmt"
 	"regexp"
+	"strings"
 	"testing"
 	"time"
 
@@ -421,6 +422,23 @@ func TestProp(t *testing.T) {
 		return
 	}
 	r.Regress()
+	var pool []Case // cases that held one at a time; re-evaluated 16 at once at the end (shared buffers inside the library show only then)
+	defer func() {
+		r.Rule(fmt.Sprintf("concurrent: the %d value and framing cases above re-evaluated 16 at a time", len(pool)))
+		evid.Parallel(len(pool), 16, func(i int) {
+			v := Eval(pool[i])
+			if !v.OK && v.Sig != "harness" {
+				v.Sig = "concurrent:" + v.Sig
+				v.Msg = "while 16 messages were encoded and decoded at once (the same case held when run alone): " + v.Msg
+			}
+			r.Count("", "type:concurrent-"+pool[i].Type)
+			check := "value"
+			if strings.HasSuffix(pool[i].Type, "framing") || pool[i].Type == "changepasswd" || pool[i].Type == "ticket-seq" {
+				check = "framing"
+			}
+			r.Violation(check, pool[i], v)
+		})
+	}()
 	r.Assume("ref/der (strict DER + RFC 4120 Annex A / RFC 4178 / RFC 3244 schemas) is validated at start-up by decoding and byte-identically re-encoding 24 MIT krb5 reference encodings; OPTIONAL fields are generated absent or with a non-zero/non-empty value (the statement's own exception); NegTokenResp always carries negState (gokrb5 always emits it)")
 	r.Rule("value: per type in {Ticket, EncTicketPart, Authenticator, EncryptedData, AS-REQ, TGS-REQ, KDC-REQ-BODY (0..4 additional tickets), AS-REP, TGS-REP, EncAS/TGSRepPart, AP-REQ, KRB-ERROR, KRB-PRIV, EncKrbPrivPart, NegTokenInit, NegTokenResp}: a schema-driven model value (optionals present/absent, boundary integers, 0..4 name components, strings/octets of 0..300 and 65535..65537 bytes, times 1970..2105, single flag bits and >32-bit flag strings) encoded by ref/der; gokrb5 must decode it to the same field values, re-encode it to the same bytes, and round-trip; non-trivial = >=1 optional present and >=1 absent, or a boundary integer, or an element > 127 bytes")
 	perType := r.N(700, 8000)
@@ -465,6 +483,7 @@ func TestProp(t *testing.T) {
 			if len(enc) < 600 {
 				r.Sample("value/"+e.name, c)
 			}
+			pool = append(pool, c)
 			if r.Judge("value", c, Eval(c)) {
 				t.Fatalf("violation")
 			}
@@ -495,6 +514,7 @@ func TestProp(t *testing.T) {
 		}
 		r.Count(c.Type+"|"+c.DER+fmt.Sprint(c.N, c.Seed), "type:"+c.Type)
 		r.Sample("framing/"+c.Type, c)
+		pool = append(pool, c)
 		if r.Judge("framing", c, Eval(c)) {
 			t.Fatalf("violation")
 		}
